@@ -17,7 +17,7 @@ def _c12_case(c):
 # OCaml driver against the Gallina definitions the theorems are about (not the implementation).
 _VM_PRELUDE = """From Coq Require Import List NArith Bool.
 Import ListNotations.
-From Oras Require Import Base.Prelude Model.TarRoundTrip.
+From Oras Require Import Base.Prelude Generated.GC12 Model.TarRoundTrip.
 Open Scope N_scope.
 Definition vm_cls (r : res fs) : nat :=
   match r with
@@ -99,6 +99,21 @@ def _vm_goal(case, out):
             kind = {"f": "(EReg %s)" % _vm_str(payload), "d": "EDir", "l": "(ELnk %s)" % _vm_str(payload)}[typ]
             ents.append("mkEntry %s %s %d %s" % (_vm_path(nm), kind, int(mode, 8), mt))
         return "tar_entries %s %s %s\n  = [%s]" % (_vm_path(toks[2]), _vm_bool(toks[1]), t, ";\n     ".join(ents))
+    if k == "XG" and out.split(" ", 2)[1:2] == ["OK"]:
+        # destination working directory set-group-ID: the base directory starts with the bit
+        t, _ = _vm_tree(toks, 4)
+        hyp, _, rest = out.partition(" ")
+        items = []
+        for it in rest[3:].split(","):
+            pth, typ, mode, payload = it.split(":")
+            node = {"f": lambda: "NFile %s %d" % (_vm_str(payload), int(mode, 8)),
+                    "d": lambda: "NDir %d" % int(mode, 8),
+                    "l": lambda: "NLink %s" % _vm_str(payload)}[typ]()
+            items.append("(%s, %s)" % (_vm_path(pth), node))
+        pre, um, pres = _vm_path(toks[3]), toks[1], _vm_bool(toks[2])
+        return ("(let es := tar_entries %s false %s in\n  let f0 := [(@nil (list N), NDir (N.lor (create_mode dir_create_bits %s c12_ensure_dir_perm) sgid))] in\n"
+                "  match extract_list_partial true %s %s %s f0 es with\n  | (f, None) => vm_listing (Ok (finish_dirs %s %s es f))\n   [%s]\n  | _ => false end) = true"
+                % (pre, t, um, pre, um, pres, pre, pres, ";\n    ".join(items)))
     if k == "X":
         t, _ = _vm_tree(toks, 4)
         call = ext + " %s %s %s (tar_entries %s false %s)" % (_vm_path(toks[3]), toks[1], _vm_bool(toks[2]), _vm_path(toks[3]), t)
@@ -163,7 +178,7 @@ def _vm_goal(case, out):
 
 def _c12_vm_sample(d, tier, coq, build):
     import os, subprocess, collections
-    quota = {"T": 80, "X": 120, "P": 30, "M": 60, "E": 60} if tier == "thorough" else {"T": 8, "X": 14, "P": 4, "M": 6, "E": 8}
+    quota = {"T": 80, "X": 120, "P": 30, "M": 60, "E": 60, "XG": 30} if tier == "thorough" else {"T": 8, "X": 14, "P": 4, "M": 6, "E": 8, "XG": 4}
     outs = {}
     with open(os.path.join(d, "model.txt")) as f:
         for l in f:
